@@ -1,16 +1,18 @@
 #!/bin/bash
-# Regression over every kept seeded change: apply to /repo, run the quick check of its property, restore.
+# Regression over every kept seeded change: apply it to a scratch copy of /repo (HEAD), run the quick check of its
+# property against that copy (VERIF_REPO), remove the copy.  /repo itself is not touched.
 # usage: selftest/run_all_seeds.sh [name-glob]     output: one line per seed "name property exit-code"
 cd /verif
+W=/tmp/repo_reg.$$
+rm -rf "$W"; git -C /repo worktree prune; git -C /repo worktree add --detach "$W" HEAD >/dev/null 2>&1 || exit 2
 for d in seeded/${1:-*}/; do
   name=$(basename "$d")
   pid=${name:0:3}
   prop=$(python3 -c "import json,sys; m=json.load(open('$d/meta.json')); print(m.get('caught_by_check', m.get('property','$pid')))" 2>/dev/null || echo "$pid")
   patch="/verif/$d/patch.diff"
   [ -f "/verif/$d/patch_ported.diff" ] && patch="/verif/$d/patch_ported.diff"
-  git -C /repo checkout -- . ; git -C /repo apply "$patch" || { echo "$name $prop APPLY-FAILED"; continue; }
-  timeout 1800 ./check "$prop" --tier quick --no-evidence > /tmp/seedrun.$$ 2>&1; rc=$?
-  git -C /repo checkout -- .
-  echo "$name $prop rc=$rc $(grep -c '^VIOLATION' /tmp/seedrun.$$) violation lines"
+  git -C "$W" checkout -q -- . ; git -C "$W" apply "$patch" || { echo "$name $prop APPLY-FAILED"; continue; }
+  VERIF_REPO="$W" VERIF_CONFIG_BUDGET_S=150 timeout 1800 ./check "$prop" --tier quick --no-evidence > /tmp/seedrun.$$ 2>&1; rc=$?
+  echo "$name $prop rc=$rc $(grep -c '^VIOLATION' /tmp/seedrun.$$) violation lines $(grep -m1 -o 'ixai from.*' /tmp/seedrun.$$)"
 done
-rm -f /tmp/seedrun.$$
+git -C /repo worktree remove --force "$W"; rm -f /tmp/seedrun.$$
